@@ -13,12 +13,13 @@ EXPLANATION = ("G1 on every path of the frame decoder, `Ok(None)` (need more byt
 TRUSTED = ['tokio_util::codec::Framed', 'nom streaming parsers report Incomplete on short input', 'bytes::BytesMut::advance']
 UNDECIDED = ['Framed\'s read loop (trusted)', 'sizes beyond the read buffer (runtime quantity)']
 ASSUMPTIONS = []
+SHARED = [('C07', ('B2.reader',), 'G5.length-reader')]      # the frame boundary is where the length reader says it is, however the bytes arrive
 CONFIGS = ['default', 'nodefault', 'rustls', 'gssapi']
 
 MUTATORS = ('advance', 'split_to', 'split_off', 'split', 'truncate', 'clear', 'resize', 'extend', 'extend_from_slice', 'put', 'put_slice', 'unsplit', 'set_len', 'reserve', 'freeze', 'copy_to_bytes', 'get_u8')
 
-def run(ctx):
-    f = ctx.facts
+def check_frame_decoder(ctx, f, G1='G1', G2='G2'):
+    """Path-level rules of the frame decoder (shared with C11 H5: a complete frame is delivered or rejected, never awaited)."""
     decs = [p for p, h in f.hir.items() if (p.startswith('ldap3::') or p.startswith('<ldap3::')) and
             any((callee_of(n) or '') == 'lber::parse::Parser::parse' for n, c in walk(h['body']) if n['k'] == 'MethodCall')]
     dp = anchors.one('frame decoder (calls lber::Parser::parse)', decs)
@@ -36,7 +37,7 @@ def run(ctx):
             continue
         pcs = parse_calls(o)
         if len(pcs) != 1 or pcs[0][2][1] != buf:
-            ctx.fail('G2.parser-input', dp, loc(B.root), 'the TLV parser is not applied exactly once to the whole buffer on some path'); continue
+            ctx.fail(G2 + '.parser-input', dp, loc(B.root), 'the TLV parser is not applied exactly once to the whole buffer on some path'); continue
         pterm = ('call', pcs[0][1], pcs[0][2], pcs[0][3].get('id'))
         inc = next((t for a, t in o.st.pc if a[0] == 'call' and a[1].endswith('::is_incomplete') and a[2][0] == ('variant', pterm, 'Err', 0)), None)
         is_err = next((t for a, t in o.st.pc if a == ('is', pterm, 'Err')), None)
@@ -48,15 +49,15 @@ def run(ctx):
         muts = mutations(o)
         if is_none:
             n_none += 1
-            ctx.add('G1.need-more-only-on-incomplete', dp, loc(B.root), is_err is True and inc is True,
+            ctx.add(G1 + '.need-more-only-on-incomplete', dp, loc(B.root), is_err is True and inc is True,
                     '`Ok(None)` is returned on a path where the parser did not report Incomplete')
-            ctx.add('G1.buffer-intact-before-need-more', dp, loc(B.root), not muts,
+            ctx.add(G1 + '.buffer-intact-before-need-more', dp, loc(B.root), not muts,
                     'the buffer is modified (%s) before asking for more bytes: bytes of the partial frame are lost' % [m[1].split('::')[-1] for m in muts])
         else:
             if inc is True:
-                ctx.fail('G1.incomplete-means-need-more', dp, loc(B.root), 'the parser reported Incomplete but the decoder returned %s' % absx.fmt(v)[:50]); continue
+                ctx.fail(G1 + '.incomplete-means-need-more', dp, loc(B.root), 'the parser reported Incomplete but the decoder returned %s' % absx.fmt(v)[:50]); continue
             if is_err is True:
-                ctx.add('G2.parse-error-path', dp, loc(B.root), (v[0] == 'tryerr' or (v[0] == 'ctor' and v[1] == 'Err')) and not muts, 'a hard parse error must return Err without consuming')
+                ctx.add(G2 + '.parse-error-path', dp, loc(B.root), (v[0] == 'tryerr' or (v[0] == 'ctor' and v[1] == 'Err')) and not muts, 'a hard parse error must return Err without consuming')
                 continue
             # past the parser
             n_succ += 1
@@ -67,12 +68,18 @@ def run(ctx):
                 arg = adv[0][2][1]
                 ok = arg[0] == 'bin' and arg[1] == 'Sub' and arg[2][0] == 'call' and arg[2][1].endswith('::len') and arg[2][2][0] == buf \
                     and arg[3][0] == 'call' and arg[3][1].endswith('::len') and arg[3][2][0] == rest
-            ctx.add('G2.consume-exactly-the-frame', '%s|%s' % (dp, 'Ok' if (v[0] == 'ctor' and v[1] == 'Ok') else 'Err'), loc(B.root), ok,
+            ctx.add(G2 + '.consume-exactly-the-frame', '%s|%s' % (dp, 'Ok' if (v[0] == 'ctor' and v[1] == 'Ok') else 'Err'), loc(B.root), ok,
                     'after a complete frame was parsed the buffer must be advanced exactly once by buf.len() - rest.len(); found %s' % [absx.fmt(m[2][-1])[:60] for m in muts])
             if ok:
                 first_after = [e for e in o.st.ev if e[0] == 'call' and e[1].endswith('::advance')]
-    ctx.floor('G1', 'need-more paths', n_none, 1)
-    ctx.floor('G2', 'paths past the parser', n_succ, 2)
+    ctx.floor(G1, 'need-more paths', n_none, 1)
+    ctx.floor(G2, 'paths past the parser', n_succ, 2)
+
+    return dp
+
+def run(ctx):
+    f = ctx.facts
+    dp = check_frame_decoder(ctx, f)
 
     # ---- G3 streaming primitives
     G = cone.Graph(f, engine.REPO)
